@@ -1,5 +1,5 @@
 (* C12 -- SurvivalGFormula (zepid/causal/gformula/TimeFixed.py) on person-period data.  Definitions only. *)
-From Coq Require Import QArith ZArith List Bool Arith.
+From Coq Require Import QArith Qround ZArith List Bool Arith.
 From Zepid Require Import Base.QSum Base.QUtil Model.Icg.
 Import ListNotations.
 Open Scope Q_scope.
@@ -40,15 +40,20 @@ Definition predicted (hz : hazard) (tr : trt) (s : list pprow) : list Q :=
   let fs := factors hz tr s in map (cuminc_fac fs) (seq 0 (length s)).
 
 (* g.groupby(t)[outcome].mean() at period t (None: no row has that period) *)
-Definition marginal_at (hz : hazard) (tr : trt) (s : list pprow) (t : nat) : option Q :=
-  let sel := filter (fun p => ptime (fst p) =? t) (combine s (predicted hz tr s)) in
+Definition marginal_of (s : list pprow) (pred : list Q) (t : nat) : option Q :=
+  let sel := filter (fun p => ptime (fst p) =? t) (combine s pred) in
   match sel with [] => None | _ => Some (Qsum snd sel / Qlen sel) end.
+Definition marginal_at (hz : hazard) (tr : trt) (s : list pprow) (t : nat) : option Q :=
+  marginal_of s (predicted hz tr s) t.
 
 (* the estimator with the saturated hazard model *)
 Definition surv_predicted (tr : trt) (rows : list pprow) : list Q :=
   let s := sort_pp rows in predicted (cell_haz s) tr s.
 Definition surv_marginal (tr : trt) (rows : list pprow) (t : nat) : option Q :=
   let s := sort_pp rows in marginal_at (cell_haz s) tr s t.
+(* the same for a list of periods, the predictions computed once (what the run evaluates) *)
+Definition surv_marginals (tr : trt) (rows : list pprow) (ts : list nat) : list (option Q) :=
+  let s := sort_pp rows in let p := predicted (cell_haz s) tr s in map (marginal_of s p) ts.
 (* the estimator with whatever hazards the fitted model returned (table indexed like the sorted rows) *)
 Definition table_haz (s : list pprow) (tab : list Q) : list (pprow * Q) := combine s (map (fun h => 1 - h) tab).
 Definition predicted_tab (s : list pprow) (tab : list Q) : list Q :=
@@ -74,3 +79,7 @@ Definition pp_wf_at (s : list pprow) (i : nat) : bool :=
   ln_eqb (map ptime own) (seq 1 (ptime r)) && forallb (fun x => Bool.eqb (parm x) (parm r)) own.
 Definition pp_wfb (s : list pprow) : bool := forallb (pp_wf_at s) (seq 0 (length s)).
 Definition pp_binaryb (s : list pprow) : bool := forallb (fun r => Qeq_bool (pev r) 0 || Qeq_bool (pev r) 1) s.
+
+(* printer for values with 400-bit dyadic denominators (printing those in decimal dominates the evaluation):
+   floor (q * 10^15), i.e. q to 15 decimals, error < 1e-15 *)
+Definition Qapprox15 (l : list Q) : list Z := map (fun q => Qfloor (q * inject_Z (10 ^ 15))) l.
